@@ -14,6 +14,12 @@ cd "$S"
 patch -s -p1 < "$SRC/patch.diff" || { echo "$ID: PATCH DOES NOT APPLY"; exit 2; }
 go build ./... >/dev/null 2>&1 || { echo "$ID: DOES NOT BUILD"; exit 2; }
 SUITE=$(go test -vet=off -count=1 ./pkg/... 2>&1 | grep -E "^(FAIL|---)" | head -5)
+if [ -n "$SUITE" ]; then
+  # flaky under load (TestProposalStore, southbound): the failing packages are run once more on their own
+  PK=$(go test -vet=off -count=1 ./pkg/... 2>&1 | grep -E "^FAIL\s+github" | awk '{print $2}' | sort -u)
+  SUITE=""
+  for q in $PK; do go test -vet=off -count=1 "$q" >/dev/null 2>&1 || SUITE="$SUITE FAIL:$q"; done
+fi
 [ -z "$SUITE" ] && SUITE_OK=true || SUITE_OK=false
 cp "$SRC"/*_test.go "$PKG/"
 go test -vet=off -count=1 -timeout 300s -run "$RUN" "./$PKG/" > "$S/with.log" 2>&1; WITH=$?
